@@ -115,7 +115,8 @@ Holds(n, s, a, t) ==
            [] OTHER            -> TRUE
     [] n = "KeepsProps" ->          \* paragraph-level assignment keeps that paragraph's properties
          a.op = "SetPara" => ValidPara(t, a.i) /\ ValidPara(s, a.i) /\ t.body[a.i].props = s.body[a.i].props
-    [] n = "OthersKept" ->          \* ... and the other paragraphs; run-level assignment keeps everything but that run's text
+    [] n = "OthersKept" ->          \* ... and the other paragraphs.  Run level: the string is assigned to that run, so the frame condition
+                                    \* is the rest of the body (DESIGN C04: "SetRun keeps everything else"); only the run's own text may change
          CASE a.op = "SetPara" -> Len(t.body) = Len(s.body) /\ \A k \in 1..Len(s.body) : k # a.i => t.body[k] = s.body[k]
            [] a.op = "SetRun"  -> /\ Len(t.body) = Len(s.body) /\ ValidRun(s, a.i, a.j)
                                   /\ \A k \in 1..Len(s.body) : k # a.i => t.body[k] = s.body[k]
